@@ -1,5 +1,6 @@
 import SluVerif.Props.Checkers
-import SluVerif.Props.LU
+import SluVerif.Props.C01
 #print axioms Slu.checkResidual_iff
 #print axioms Slu.factor_identity
 #print axioms Slu.factor_permR_isPerm
+#print axioms Slu.solve_correct
